@@ -39,6 +39,16 @@ CLAIMED = {
             "accepts, close, denial response, crash) and closing orders, judged against a decision table with an independently "
             "computed RFC 6455 accept token.",
             "requests that are not upgrade attempts at all (no Connection: upgrade token, other Upgrade value, non-GET) are ordinary HTTP and not judged here"),
+    "C04": ("5/C04", "Seeded search over four input families on both workers, each with tape-drawn segmentation and delays: random bytes "
+            "behind protocol-looking prefixes; bit/byte/delete/insert/splice/truncate mutations of valid HTTP/1 pipelines, HTTP/2 "
+            "sessions and WebSocket sessions; legal but rare HTTP/2 items at tape-chosen points next to 1..3 ordinary sibling "
+            "streams; plus complete enumeration of a catalogue of 16 malformed HTTP/1 requests and 26 HTTP/2 protocol violations and "
+            "of every rare item x position.  Oracle: no exception leaves a handler or reaches the loop's exception handler, "
+            "worker_serve survives, the connection is released, a fresh connection is served afterwards, catalogue entries get "
+            "their 4xx+close / GOAWAY+close, siblings complete byte for byte.",
+            "applications are well-behaved; for random and mutated input only the absence of internal errors, the release of the "
+            "connection and the health of the server are judged; an empty :path and other inputs the h2 library classifies as "
+            "connection errors are protocol violations, not 'merely unusual'"),
     "C05": ("5/C05", "Complete enumeration of base program x await point x failure kind {raise, ExceptionGroup, return, self-cancel} x "
             "context {HTTP/1.1 keep-alive, pipelined, HTTP/2 with siblings, WebSocket on both carriers} x worker, plus seeded variation "
             "of segmentation/latency/body around the same product; the client-side parsers decide 500 / visibly incomplete / reset.",
